@@ -791,7 +791,7 @@ func (e *Engine) VerifyFunc(fn *ssa.Function) (vc *VC) {
 	f.run(st, args)
 	if fc != nil {
 		for _, cs := range fc.Callsites {
-			if !f.csUsed[cs] {
+			if !f.csUsed[cs] && !cs.Optional {
 				seen := map[string]bool{}
 				var names []string
 				for _, b := range fn.Blocks {
